@@ -6,6 +6,8 @@ import (
 	"time"
 
 	"github.com/tyler-sommer/stick"
+	"github.com/tyler-sommer/stick/twig"
+	"github.com/tyler-sommer/stick/twig/escape"
 
 	"verif/core"
 )
@@ -265,7 +267,160 @@ func c08SamePos(kind, rel int) core.Result {
 	return core.Okay(true, out)
 }
 
+// c08Repeat: a capturing construct evaluated n times in one execution, its input changing from one evaluation to the
+// next through a loop variable (no set in between): every evaluation captures what it produces then.
+func c08Repeat(kind, n, nest int) core.Result {
+	var els []string
+	for i := 1; i <= n; i++ {
+		els = append(els, itoa(i))
+	}
+	list := "[" + strings.Join(els, ", ") + "]"
+	unit := func(v string) string { return "" }
+	head, use := "", ""
+	tpls := map[string]string{}
+	switch kind {
+	case 0: // block() of a block that prints the loop variable
+		head = "{% block row %}<{{ v }}>{% endblock %}|"
+		use = "{{ block('row') }}"
+		unit = func(v string) string { return "<" + v + ">" }
+	case 1: // the same, twice per iteration and through a filter
+		head = "{% block row %}<{{ v }}>{% endblock %}|"
+		use = "{{ block('row') }}{{ block('row')|rev }}"
+		unit = func(v string) string { return "<" + v + ">" + c08Rev("<"+v+">") }
+	case 2: // a macro called with the loop variable
+		head = "{% macro m(a) %}[{{ a }}]{% endmacro %}|"
+		use = "{{ _self.m(v) }}"
+		unit = func(v string) string { return "[" + v + "]" }
+	case 3: // a set-capture printed
+		head = "|"
+		use = "{% set c %}({{ v }}){% endset %}{{ c }}"
+		unit = func(v string) string { return "(" + v + ")" }
+	case 4: // a filter section
+		head = "|"
+		use = "{% filter rev %}a{{ v }}{% endfilter %}"
+		unit = func(v string) string { return c08Rev("a" + v) }
+	case 5: // parent() inside an overriding block
+		tpls["host"] = "{% block row %}P{{ v }};{% endblock %}"
+		head = "{% extends 'host' %}{% block row %}|"
+		use = "{{ parent() }}"
+		unit = func(v string) string { return "P" + v + ";" }
+	case 6: // block() assigned, then printed after the next evaluation has happened
+		head = "{% block row %}<{{ v }}>{% endblock %}|"
+		use = "{% if loop.first %}{% endif %}{{ [block('row'), block('row')]|join('+') }}"
+		unit = func(v string) string { return "<" + v + ">+<" + v + ">" }
+	}
+	body := "{% for v in " + list + " %}" + use + "{% endfor %}"
+	want := ""
+	for _, v := range els {
+		want += unit(v)
+	}
+	if nest == 1 { // inside an outer loop of 2: the inner evaluations repeat with the same inputs
+		body = "{% for o in ['x', 'y'] %}{{ o }}:" + body + "{% endfor %}"
+		want = "x:" + want + "y:" + want
+	}
+	inPlace := ""
+	if kind == 0 || kind == 1 || kind == 6 {
+		inPlace = "<>"
+	}
+	main := head + body
+	if kind == 5 {
+		main += "{% endblock %}"
+	}
+	tpls["main"] = main
+	env := c08Env(tpls)
+	env.Filters["join"] = func(ctx stick.Context, val stick.Value, args ...stick.Value) stick.Value {
+		var parts []string
+		stick.Iterate(val, func(k, v stick.Value, l stick.Loop) (bool, error) {
+			parts = append(parts, stick.CoerceString(v))
+			return false, nil
+		})
+		return strings.Join(parts, stick.CoerceString(args[0]))
+	}
+	out, err, pan := tryExec(env, "main", nil)
+	if pan != "" || err != nil {
+		return core.Violation("error", fmt.Sprintf("%q: %v %s", main, err, pan))
+	}
+	if out != inPlace+"|"+want {
+		return core.Violation("routing", fmt.Sprintf("%q renders\n    %q, want\n    %q", main, out, inPlace+"|"+want))
+	}
+	return core.Okay(n > 1, out)
+}
+
+var c08SecFilters = []string{"up", "rev", "para", "escape"}
+
+// c08Sections: a filter section with a list of filters applies them in the order named - exactly like the same
+// filters written as nested single-filter sections, innermost first. env: 0 core (no escape filter), 1 twig with a
+// .txt template, 2 twig with a .html template. For a body of literal text the result is also known by construction.
+func c08Sections(envKind int, fs []int, bodyKind int) core.Result {
+	var names []string
+	for _, f := range fs {
+		if envKind == 0 && c08SecFilters[f] == "escape" {
+			return core.Skipped("no-escape-filter-in-the-core-environment")
+		}
+		names = append(names, c08SecFilters[f])
+	}
+	body := []string{"a < b & 'c'", "x{{ v }}y", "{% for i in [1, 2] %}<{{ i }}>{% endfor %}"}[bodyKind]
+	list := "{% filter " + strings.Join(names, "|") + " %}" + body + "{% endfilter %}"
+	nested := body
+	for _, n := range names {
+		nested = "{% filter " + n + " %}" + nested + "{% endfilter %}"
+	}
+	name := []string{"m", "m.txt", "m.html"}[envKind]
+	tpls := map[string]string{name: "[" + list + "]", "n" + name: "[" + nested + "]"}
+	var env *stick.Env
+	if envKind == 0 {
+		env = c08Env(tpls)
+	} else {
+		env = twig.New(&stick.MemoryLoader{Templates: tpls})
+		core8 := c08Env(nil)
+		for k, f := range core8.Filters {
+			env.Filters[k] = f
+		}
+	}
+	env.Filters["para"] = func(ctx stick.Context, val stick.Value, args ...stick.Value) stick.Value {
+		return "<p>" + stick.CoerceString(val) + "</p>"
+	}
+	ctx := map[string]stick.Value{"v": "<V>"}
+	o1, e1, p1 := tryExec(env, name, ctx)
+	o2, e2, p2 := tryExec(env, "n"+name, ctx)
+	if p1 != "" || p2 != "" || e1 != nil || e2 != nil {
+		return core.Violation("error", fmt.Sprintf("%q / %q: %v %v %s %s", list, nested, e1, e2, p1, p2))
+	}
+	if o1 != o2 {
+		return core.Violation("routing", fmt.Sprintf("%q renders %q, the same filters as nested sections %q render %q", list, o1, nested, o2))
+	}
+	if bodyKind == 0 {
+		want := body
+		for _, n := range names {
+			switch n {
+			case "up":
+				want = c08Up(want)
+			case "rev":
+				want = c08Rev(want)
+			case "para":
+				want = "<p>" + want + "</p>"
+			case "escape":
+				if envKind == 2 {
+					want = escape.HTML(want)
+				} else {
+					return core.Okay(true, o1) // the strategy 'escape' picks in a .txt template is not claimed here
+				}
+			}
+		}
+		if o1 != "["+want+"]" {
+			return core.Violation("routing", fmt.Sprintf("%q renders %q, want %q (the filters in the order named)", list, o1, "["+want+"]"))
+		}
+	}
+	return core.Okay(true, o1)
+}
+
 func c08Run(c core.Case) core.Result {
+	if c.Fam == "repeat" {
+		return c08Repeat(c.N[0], c.N[1], c.N[2])
+	}
+	if c.Fam == "sections" {
+		return c08Sections(c.N[0], c.N[2:], c.N[1])
+	}
 	if c.Fam == "samepos" {
 		return c08SamePos(c.N[0], c.N[1])
 	}
@@ -360,6 +515,30 @@ func c08Levels(tier string) []core.Level {
 			}
 		}},
 	}
+	lv = append(lv, core.Level{Name: "repetition: 7 capturing constructs (block() once / twice and filtered / collected in a list, a macro call, a set-capture, a filter section, parent()) evaluated 0..6 times in a loop - alone and inside an outer loop of 2 - with the loop variable as their input: every evaluation captures what it produces then", Gen: func(emit func(core.Case)) {
+		for kind := 0; kind < 7; kind++ {
+			for n := 0; n <= 6; n++ {
+				for nest := 0; nest < 2; nest++ {
+					emit(core.Case{Fam: "repeat", N: []int{kind, n, nest}})
+				}
+			}
+		}
+	}})
+	lv = append(lv, core.Level{Name: "filter sections with a list of 2..3 filters over {up, rev, para, escape} x 3 bodies (text, a print, a loop) in the core environment and in .txt / .html templates of the twig environment: the filters apply in the order named, exactly like nested single-filter sections", Gen: func(emit func(core.Case)) {
+		nf := len(c08SecFilters)
+		for envKind := 0; envKind < 3; envKind++ {
+			for b := 0; b < 3; b++ {
+				for f1 := 0; f1 < nf; f1++ {
+					for f2 := 0; f2 < nf; f2++ {
+						emit(core.Case{Fam: "sections", N: []int{envKind, b, f1, f2}})
+						for f3 := 0; f3 < nf; f3++ {
+							emit(core.Case{Fam: "sections", N: []int{envKind, b, f1, f2, f3}})
+						}
+					}
+				}
+			}
+		}
+	}})
 	lv = append(lv, core.Level{Name: "two constant constructs (filter section, capture, filter section with a comment, loop) at the same line and column of two templates of one execution (importer / macro file, layout / child, including / included)", Gen: func(emit func(core.Case)) {
 		for kind := 0; kind < 4; kind++ {
 			for rel := 0; rel < 3; rel++ {
